@@ -1933,7 +1933,11 @@ class Controller:
         returncode = returncode if returncode is not None else component.engine.exitReason()
 
         # VV: @tag:RestartEngines
-        if exitReason in component.specification.workflowAttributes.get('restartHookOn', []):
+        # The cap on consecutive resubmissions applies to every failed submission, including those of components
+        # that list SubmissionFailed in restartHookOn (restarts due to SubmissionFailed do not count against
+        # maxRestarts, so nothing else would bound them)
+        if exitReason in component.specification.workflowAttributes.get('restartHookOn', []) \
+                and exitReason != experiment.model.codes.exitReasons["SubmissionFailed"]:
             try:
                 self.log.info("Attempting to restart due to %s %s (times so far: %d)" % (
                     component.specification.reference, exitReason, component.engine.restarts))
